@@ -37,7 +37,7 @@ Section Final.
     if memE x then detach_obj true (if mem x sn then ob x else o_in (ob x) false) else ob x.
   Definition fo2 (x : nat) : obj :=
     match ks_find x (fks f) with
-    | Some (old, _) => o_in (o_key (fo1 x) (Some old)) (negb (memE x))
+    | Some (old, _) => if memE x then fo1 x else o_in (o_key (fo1 x) (Some old)) true
     | None => fo1 x
     end.
   Definition mtodel (x : nat) : bool := Nat.ltb x n && negb (memE x) && (mem x (fdel f) || mem x sd).
@@ -47,7 +47,7 @@ Section Final.
 
   (* ---- plain computation on the formula *)
   Lemma fo4_E : forall x, memE x = true -> (mem x sn = true -> oin (ob x) = false) ->
-    oatt (fo4 x) = false /\ oin (fo4 x) = false /\ odelf (fo4 x) = odelf (ob x) /\
+    oatt (fo4 x) = false /\ oin (fo4 x) = false /\ (odelf (fo4 x) = false /\ okey (fo4 x) = None) /\
     odid (fo4 x) = odid (ob x) /\ odv (fo4 x) = odv (ob x) /\ omod (fo4 x) = omod (ob x) /\
     ocid (fo4 x) = ocid (ob x) /\ ocv (fo4 x) = ocv (ob x).
   Proof.
@@ -66,7 +66,7 @@ Section Final.
     odid (fo3 x) = odid (ob x) /\ odv (fo3 x) = odv (ob x) /\ omod (fo3 x) = omod (ob x) /\
     ocid (fo3 x) = ocid (ob x) /\ ocv (fo3 x) = ocv (ob x) /\ oexp (fo3 x) = oexp (ob x).
   Proof.
-    intros x H. unfold oin3, fo3, fo2, fo1, pkey. rewrite H. cbn [negb].
+    intros x H. unfold oin3, fo3, fo2, fo1, pkey. rewrite H.
     destruct (ks_find x (fks f)) as [[old nw]|]; destruct (mtodel x); cbn; repeat split; try reflexivity.
   Qed.
   Lemma fo4_notE : forall x, memE x = false ->
@@ -330,7 +330,12 @@ Section Sem.
       + destruct (A_id x Hg) as [A1 [A2 A3]]. rewrite A1 in Ha. destruct (A3 Ha) as [A4 A5].
         assert (In x []); [|auto]. apply (g_new _ _ _ _ _ GG). repeat split; congruence.
       + destruct (A_fresh x Hg Hn). congruence.
-    - intros x [].
+    - intros x Hn Hk. destruct (expunged f sn x) eqn:He.
+      + destruct (fo4_E b f ob n sn sd x) as [_ [_ [[D _] _]]]; [rewrite memE_exp; auto|intros Y; apply sn_notin; auto|exact D].
+      + destruct (fo4_notE b f ob n sn sd x) as [C1 [_ [C3 _]]]; [rewrite memE_exp; auto|].
+        rewrite C3. destruct (mtodel f n sn sd x); auto.
+        change (okey (fo4 b f ob n sn sd x) = None) in Hk. rewrite C1 in Hk. unfold pkey in Hk.
+        destruct (ks_find x (fks f)) as [[old nw]|]; [discriminate|]. apply (g_newd _ _ _ _ _ G x Hn Hk).
     - intros x [].
     - split; constructor.
     - intros x k Hn Hk Ha Hd. destruct (Nat.lt_ge_cases x (gn g)) as [Hg|Hg].
@@ -421,9 +426,11 @@ Section Compute.
   Proof.
     intros x Hn H. unfold fo2, fo1 in *. rewrite (memE_exp f n sn) in * by auto.
     destruct (expunged f sn x) eqn:He.
-    - exfalso. destruct (ks_find x (fks f)) as [[old nw]|]; cbn in H; [discriminate|].
-      destruct (mem x sn) eqn:Es; cbn in H; [|discriminate].
-      destruct (sn_notin (objs st) (nobj st) (snew st) (sdel st) W0 G x Es) as [X _]. unfold ob in H. congruence.
+    - exfalso.
+      assert (H1 : oin (detach_obj true (if mem x sn then ob x else o_in (ob x) false)) = true)
+        by (destruct (ks_find x (fks f)) as [[old nw]|]; exact H).
+      destruct (mem x sn) eqn:Es; cbn in H1; [|discriminate].
+      destruct (sn_notin (objs st) (nobj st) (snew st) (sdel st) W0 G x Es) as [X _]. unfold ob in H1. congruence.
     - split; auto. unfold oin3, pkey. destruct (ks_find x (fks f)) as [[old nw]|]; cbn in *; auto.
       rewrite H. rewrite orb_true_r. auto.
   Qed.
@@ -443,7 +450,11 @@ Section Compute.
 
   Lemma st2_char : same_rest st2 st1 /\ forall x, objs st2 x = fo2 f ob n sn x.
   Proof.
-    destruct (phase2_char E (fks f) st1 phase2_inj) as [SR H]. split; auto.
+    assert (HE : forall x, mem x E = true -> oin (objs st1 x) = false).
+    { intros x Hx. rewrite st1_objs. unfold fo1. rewrite <- memE_E, Hx.
+      destruct (mem x sn) eqn:Es; cbn; auto.
+      destruct (sn_notin (objs st) (nobj st) (snew st) (sdel st) W0 G x Es) as [X _]. exact X. }
+    destruct (phase2_char E (fks f) st1 HE phase2_inj) as [SR H]. split; auto.
     intros x. rewrite <- P2_fo2. apply H.
     destruct (Nat.lt_ge_cases x (nobj st1)); auto. right.
     destruct (ks_find x (fks f)) as [[old nw]|] eqn:Ek; auto.
